@@ -22,7 +22,9 @@ import time
 VERIF = os.path.dirname(os.path.dirname(os.path.abspath(__file__)))
 REPO = os.environ.get("VERIF_REPO", "/repo")
 COQ = os.path.join(VERIF, "coq")
-WORK = os.path.join(VERIF, "work")
+WORK = os.environ.get("VERIF_WORK", os.path.join(VERIF, "work"))
+REPO_TAG = hashlib.sha256(REPO.encode()).hexdigest()[:8]
+BIN = os.path.join(WORK, "bin", REPO_TAG)
 HARNESS = os.path.join(VERIF, "harness")
 GOENV = dict(os.environ, GOFLAGS="-mod=mod", GOPROXY="off", GOSUMDB="off", GOTOOLCHAIN="local",
              CGO_ENABLED=os.environ.get("CGO_ENABLED", "0"))
@@ -62,9 +64,10 @@ def sh(cmd, cwd=None, env=None, timeout=None, capture=True):
 
 
 class Lock:
-    def __init__(self, name):
-        os.makedirs(WORK, exist_ok=True)
-        self.path = os.path.join(WORK, name)
+    def __init__(self, name, base=None):
+        base = base or WORK
+        os.makedirs(base, exist_ok=True)
+        self.path = os.path.join(base, name)
 
     def __enter__(self):
         self.f = open(self.path, "w")
@@ -86,18 +89,23 @@ def write_if_changed(path, text):
     return False
 
 
+def coq_project_text():
+    files = sorted(os.path.relpath(f, COQ) for f in glob.glob(os.path.join(COQ, "theories", "**", "*.v"), recursive=True))
+    return "-R theories VF\n" + "\n".join(files) + "\n"
+
+
 def coq_make(targets=None):
-    """Full .vo build of the library (no-op when up to date). Returns (rc, log)."""
-    with Lock(".coq.lock"):
-        if not os.path.exists(os.path.join(COQ, "Makefile")) or \
-                os.path.getmtime(os.path.join(COQ, "Makefile")) < os.path.getmtime(os.path.join(COQ, "_CoqProject")):
+    """Full .vo build of the library (no-op when up to date). _CoqProject lists every .v under theories/. Returns (rc, log)."""
+    with Lock(".coq.lock", COQ):
+        changed = write_if_changed(os.path.join(COQ, "_CoqProject"), coq_project_text())
+        if changed or not os.path.exists(os.path.join(COQ, "Makefile")):
             rc, out = sh("coq_makefile -f _CoqProject -o Makefile", cwd=COQ, timeout=120)
             if rc != 0:
                 return rc, out
         cmd = "make -k -j%d" % (os.cpu_count() or 4)
         if targets:
             cmd += " " + " ".join(targets)
-        rc, out = sh("timeout 3000 " + cmd, cwd=COQ, timeout=3100)
+        rc, out = sh("timeout 7000 " + cmd, cwd=COQ, timeout=7100)
         return rc, out
 
 
@@ -154,19 +162,30 @@ def parse_one_assumption(mod, n, out):
     return {"name": n, "module": mod, "ok": not bad and bool(ax), "assumptions": ax}
 
 
-def build_harness(name):
-    os.makedirs(os.path.join(WORK, "bin"), exist_ok=True)
+def build_harness(name, flags=None, outname=None, env=None):
+    """go build -tags verif against REPO's working tree, through a per-REPO -modfile so that several
+    trees (scratch worktrees for seeded changes) can be checked side by side."""
+    os.makedirs(BIN, exist_ok=True)
+    moddir = os.path.join(WORK, "gomod", REPO_TAG)
+    os.makedirs(moddir, exist_ok=True)
+    gomod = open(os.path.join(HARNESS, "go.mod")).read()
+    want = re.sub(r"(replace github.com/songzhibin97/go-baseutils => ).*", r"\g<1>" + REPO, gomod)
+    for extra in ("require", ):
+        pass
+    # carry over the repository's own requirements so that its dependencies resolve offline
+    repo_mod = open(os.path.join(REPO, "go.mod")).read()
+    reqs = re.findall(r"(?m)^\s*([\w./\-]+\.[\w./\-]+)\s+(v[\w.\-+]+)(?:\s*//.*)?$", repo_mod)
+    want += "\nrequire (\n" + "".join("\t%s %s\n" % r for r in reqs if r[0] != "github.com/songzhibin97/go-baseutils") + ")\n"
     with Lock(".go.lock"):
+        write_if_changed(os.path.join(moddir, "go.mod"), want)
         try:
-            shutil.copy(os.path.join(REPO, "go.sum"), os.path.join(HARNESS, "go.sum"))
+            shutil.copy(os.path.join(REPO, "go.sum"), os.path.join(moddir, "go.sum"))
         except OSError:
             pass
-        gomod = open(os.path.join(HARNESS, "go.mod")).read()
-        want = re.sub(r"(replace github.com/songzhibin97/go-baseutils => ).*", r"\g<1>" + REPO, gomod)
-        if want != gomod:
-            open(os.path.join(HARNESS, "go.mod"), "w").write(want)
-        rc, out = sh(["go", "build", "-tags", "verif", "-o", os.path.join(WORK, "bin", name), "./cmd/" + name],
-                     cwd=HARNESS, env=GOENV, timeout=900)
+        e = dict(GOENV)
+        e.update(env or {})
+        rc, out = sh(["go", "build", "-modfile", os.path.join(moddir, "go.mod"), "-tags", "verif"] + list(flags or []) +
+                     ["-o", os.path.join(BIN, outname or name), "./cmd/" + name], cwd=HARNESS, env=e, timeout=1800)
     return rc, out
 
 
@@ -207,16 +226,32 @@ class Ctx:
     pass
 
 
-def run_harness(cfg, pid, tier, seed, outdir, extra=None, timeout=None):
+def runs_of(cfg):
+    """A check consists of one or more harness runs (e.g. a plain one and a -race one)."""
+    rs = cfg.get("runs")
+    if not rs:
+        rs = [{"harness": cfg["harness"]}]
+    out = []
+    for i, r in enumerate(rs):
+        r = dict(r)
+        r.setdefault("name", r["harness"] + ("" if i == 0 else "_%d" % i))
+        r.setdefault("subdir", "" if i == 0 else "run%d" % i)
+        out.append(r)
+    return out
+
+
+def run_harness(cfg, run, tier, seed, outdir, timeout=None):
     os.makedirs(outdir, exist_ok=True)
     for f in glob.glob(os.path.join(outdir, "cases_*")) + glob.glob(os.path.join(outdir, "meta.json")):
         os.remove(f)
-    cmd = [os.path.join(WORK, "bin", cfg["harness"]), "-seed", str(seed), "-tier", tier, "-out", outdir]
-    if extra:
-        cmd += ["-extra", extra]
+    cmd = [os.path.join(BIN, run["name"]), "-seed", str(seed), "-tier", tier, "-out", outdir]
+    if run.get("extra"):
+        cmd += ["-extra", run["extra"]]
     env = dict(GOENV)
+    env["VERIF_REPO"] = REPO
     env.update(cfg.get("env", {}))
-    rc, out = sh(cmd, cwd=HARNESS, env=env, timeout=timeout or cfg.get("harness_timeout", 1500))
+    env.update(run.get("env", {}))
+    rc, out = sh(cmd, cwd=HARNESS, env=env, timeout=timeout or run.get("timeout") or cfg.get("harness_timeout", 1500))
     return rc, out
 
 
@@ -244,6 +279,34 @@ def evaluate_cases(outdir):
                                  "label": c.get("label"), "step_label": steps[step] if step < len(steps) else None,
                                  "replay": c.get("replay"), "file": path})
     return meta, failures, errors, len(shards), time.time() - t
+
+
+def merge_metas(metas):
+    if not metas:
+        return {}
+    if len(metas) == 1:
+        return metas[0]
+    m = dict(metas[0])
+    m["cases"] = []
+    for k in ("evaluations", "distinct_nontrivial", "distinct"):
+        m[k] = sum(x.get(k, 0) for x in metas)
+    m["samples"] = sum((x.get("samples", [])[:3] for x in metas), [])
+    d = {}
+    for x in metas:
+        for k, v in (x.get("distribution") or {}).items():
+            d[k] = d.get(k, 0) + v
+    m["distribution"] = d
+    notes = {}
+    dv = []
+    for i, x in enumerate(metas):
+        for k, v in (x.get("notes") or {}).items():
+            if k == "direct_violations":
+                dv += v or []
+            else:
+                notes["%s#%d" % (k, i) if k in notes else k] = v
+    notes["direct_violations"] = dv
+    m["notes"] = notes
+    return m
 
 
 def signature(f):
@@ -303,22 +366,31 @@ def main(argv):
     meta, failures, errors = {}, [], []
     nshards = 0
     coq_s = 0.0
-    rc, bout = build_harness(cfg["harness"])
     harness_ok = True
-    if rc != 0:
-        harness_ok = False
-        broken.append({"what": "correspondence: harness does not build against /repo (go build -tags verif ./cmd/%s)" % cfg["harness"],
-                       "detail": bout[-3000:]})
-    else:
-        rc, hout = run_harness(cfg, pid, tier, seed, workdir)
-        notes["harness_tail"] = hout[-1500:]
-        if rc != 0 or not os.path.exists(os.path.join(workdir, "meta.json")):
+    metas = []
+    for run in runs_of(cfg):
+        rc, bout = build_harness(run["harness"], run.get("build_flags"), run["name"], run.get("build_env"))
+        if rc != 0:
             harness_ok = False
-            broken.append({"what": "correspondence: harness run failed (exit %s)" % rc, "detail": hout[-3000:]})
-        else:
-            meta, failures, errors, nshards, coq_s = evaluate_cases(workdir)
-            for e in errors:
-                broken.append({"what": "correspondence: case file does not evaluate", "detail": e})
+            broken.append({"what": "correspondence: harness does not build against %s (go build -tags verif %s ./cmd/%s)" % (
+                REPO, " ".join(run.get("build_flags") or []), run["harness"]), "detail": bout[-3000:]})
+            continue
+        rdir = os.path.join(workdir, run["subdir"]) if run["subdir"] else workdir
+        rc, hout = run_harness(cfg, run, tier, seed, rdir)
+        notes["harness_tail_" + run["name"]] = hout[-1500:]
+        if rc != 0 or not os.path.exists(os.path.join(rdir, "meta.json")):
+            harness_ok = False
+            broken.append({"what": "correspondence: harness run %s failed (exit %s)" % (run["name"], rc), "detail": hout[-3000:]})
+            continue
+        m1, f1, e1, n1, c1 = evaluate_cases(rdir)
+        metas.append(m1)
+        failures += f1
+        errors += e1
+        nshards += n1
+        coq_s += c1
+        for e in e1:
+            broken.append({"what": "correspondence: case file does not evaluate", "detail": e})
+    meta = merge_metas(metas)
     # harness-level findings (things decided outside Coq, e.g. race detector reports): meta["direct_violations"]
     for dv in (meta.get("notes", {}) or {}).get("direct_violations", []) or []:
         failures.append({"kind": 2, "label": dv.get("label"), "step_label": dv.get("what"), "replay": dv, "shard": -1, "idx": -1, "step": 0})
@@ -351,7 +423,7 @@ def main(argv):
         wdir = os.path.join(WORK, pid + "_widen")
         widened = {"runs": 0, "evaluations": 0}
         for k in range(int(cfg.get("widen_runs", 2))):
-            rc, hout = run_harness(cfg, pid, cfg.get("widen_tier", "thorough"), seed + 1000 + k, wdir,
+            rc, hout = run_harness(cfg, runs_of(cfg)[0], cfg.get("widen_tier", "thorough"), seed + 1000 + k, wdir,
                                    timeout=cfg.get("widen_timeout", 900))
             if rc != 0 or not os.path.exists(os.path.join(wdir, "meta.json")):
                 break
